@@ -8,10 +8,13 @@
    `final_equiv f f'`: both runs reach the body and it observes the same value under every name, or neither
    reaches the body.  Which exception leaves may depend on the order of arrival (the first rejection wins, C12).
 
-   Guards: self_guard (the name `self` arrives only as the implicit first positional argument and is no Parameter
-   name - outside it: C13_self_by_keyword_refuted) and gate_guard / names_fit (every name that reaches the
-   function is one of its parameters, or it takes **kwargs ...; outside it _as_args falls back to arrival
-   order: C13_call_style_outside_signature_refuted, the region of known finding C12-K1).
+   Guard: self_guard (the name `self` arrives only as the implicit first positional argument and is no Parameter
+   name - outside it: C13_self_by_keyword_refuted).  C13_return_as_without_none additionally needs names_fit (every
+   name that reaches the function is one of its parameters, or it takes **kwargs): otherwise a surplus keyword
+   whose value is None is omitted together with the other None values and the call succeeds.
+   History: until /repo commit d10af45 `_as_args` fell back to arrival order when a name outside the signature
+   reached a function without **kwargs (finding C13-K1 = C12-K1); the former refutations are now the Examples
+   C13_K1_witness_fixed.
    Functions with *args keep arrival order on purpose (repository test
    test_return_as_args_advanced_different_order); the property text excludes them and so does the model.   *)
 From Coq Require Import List Arith Bool Permutation.
@@ -40,7 +43,6 @@ Theorem C13_call_style_invariant : forall value is_none sg env dc is_async c c',
   Permutation (named_assignment value sg c) (named_assignment value sg c') ->
   NoDup (keys (named_assignment value sg c)) ->
   self_guard value sg dc c = true -> self_guard value sg dc c' = true ->
-  gate_guard value sg dc c = true -> gate_guard value sg dc c' = true ->
   final_equiv value (snd (vrun is_none sg env dc is_async c)) (snd (vrun is_none sg env dc is_async c')).
 Proof. intros value is_none. rewrite vrun_ref. apply call_style_invariant'. Qed.
 Print Assumptions C13_call_style_invariant.
@@ -49,14 +51,13 @@ Print Assumptions C13_call_style_invariant.
 Theorem C13_declaration_order_invariant : forall value is_none sg env dc dc' is_async c,
   same_but_params value dc dc' -> NoDup (map (@p_name value) (d_params dc)) ->
   self_guard value sg dc c = true -> self_guard value sg dc' c = true ->
-  gate_guard value sg dc c = true -> gate_guard value sg dc' c = true ->
   final_equiv value (snd (vrun is_none sg env dc is_async c)) (snd (vrun is_none sg env dc' is_async c)).
 Proof. intros value is_none. rewrite vrun_ref. apply declaration_order_invariant. Qed.
 Print Assumptions C13_declaration_order_invariant.
 
 (* RETURN_AS.  ARGS and KWARGS_WITH_NONE end identically (same binding in the same order, same exception) ... *)
 Theorem C13_return_as_invariant : forall value is_none sg env dc is_async c,
-  self_guard value sg dc c = true -> names_fit value sg dc c = true ->
+  self_guard value sg dc c = true ->
   snd (vrun is_none sg env (with_mode value dc ARGS) is_async c) =
   snd (vrun is_none sg env (with_mode value dc KWARGS_WITH_NONE) is_async c).
 Proof. intros value is_none. rewrite vrun_ref. apply args_equals_kwargs. Qed.
@@ -83,7 +84,7 @@ Print Assumptions C13_external_only_when_absent.
 
 (* ... and if the caller passes none, the body sees the chain output of the external value *)
 Theorem C13_external_supplies_when_absent : forall value is_none sg env dc is_async c j b p w v,
-  self_guard value sg dc c = true -> gate_guard value sg dc c = true ->
+  self_guard value sg dc c = true ->
   NoDup (map (@p_name value) (d_params dc)) ->
   vrun is_none sg env dc is_async c = (j, FBody b) ->
   In p (d_params dc) -> (forall w', ~ caller_gives value sg dc c (p_name p) w') ->
@@ -112,41 +113,26 @@ Definition mksig (ps : list (name * option nat)) (varkw : bool) : signature nat 
   {| s_params := map (fun nd => {| sp_name := fst nd; sp_kwonly := false; sp_default := snd nd |}) ps; s_varkw := varkw |}.
 Definition no_env : wenv := {| w_flask_installed := false; w_request := None |}.
 
-(* outside the guards the statements are false on the current source *)
-(* (a) def f(b=5, a=0), Parameter a, strict=False, ARGS: f(a=1, c=2) and f(c=2, a=1) bind differently *)
-Theorem C13_call_style_outside_signature_refuted : exists sg env dc is_async c c',
-  d_ignore_input dc = false /\ Permutation (named_assignment nat sg c) (named_assignment nat sg c') /\
-  NoDup (keys (named_assignment nat sg c)) /\
-  self_guard nat sg dc c = true /\ self_guard nat sg dc c' = true /\ gate_guard nat sg dc c = false /\
-  ~ final_equiv nat (snd (vrun nnone sg env dc is_async c)) (snd (vrun nnone sg env dc is_async c')).
-Proof.
-  exists (mksig [(2, Some 5); (1, Some 0)] false), no_env,
-    {| d_params := [mkparam 1 [] true None None]; d_mode := ARGS; d_strict := false; d_ignore_input := false |},
-    false, {| c_args := []; c_kwargs := [(1, 1); (3, 2)] |}, {| c_args := []; c_kwargs := [(3, 2); (1, 1)] |}.
-  repeat split.
-  - apply perm_swap.
-  - repeat constructor; cbn; intuition discriminate.
-  - intro H. specialize (H 1). vm_compute in H. discriminate H.
-Qed.
-Print Assumptions C13_call_style_outside_signature_refuted.
+(* former finding C13-K1 (fixed by d10af45): def f(b=5, a=0), Parameter a, strict=False: f(a=1, c=2) and f(c=2, a=1)
+   used to bind differently under ARGS (arrival order) and differently from the KWARGS modes; now every mode and
+   either keyword order ends in Python's TypeError for the unexpected keyword *)
+Example C13_K1_witness_fixed :
+  let sg := mksig [(2, Some 5); (1, Some 0)] false in
+  let dc := {| d_params := [mkparam 1 [] true None None]; d_mode := ARGS; d_strict := false; d_ignore_input := false |} in
+  let c := {| c_args := []; c_kwargs := [(1, 1); (3, 2)] |} in
+  let c' := {| c_args := []; c_kwargs := [(3, 2); (1, 1)] |} in
+  names_fit nat sg dc c = false /\
+  snd (vrun nnone sg no_env dc false c) = FRaise TypeErrorC None /\
+  snd (vrun nnone sg no_env dc false c') = FRaise TypeErrorC None /\
+  snd (vrun nnone sg no_env (with_mode nat dc KWARGS_WITH_NONE) false c) = FRaise TypeErrorC None /\
+  snd (vrun nnone sg no_env (with_mode nat dc KWARGS_WITHOUT_NONE) false c) = FRaise TypeErrorC None.
+Proof. repeat split. Qed.
 
-(* (a') the same configuration: ARGS reaches the body (with b=1, a=2), KWARGS_WITH_NONE ends in Python's TypeError *)
-Theorem C13_return_as_outside_signature_refuted : exists sg env dc is_async c,
-  self_guard nat sg dc c = true /\ names_fit nat sg dc c = false /\
-  snd (vrun nnone sg env (with_mode nat dc ARGS) is_async c) = FBody [(2, 1); (1, 2)] /\
-  snd (vrun nnone sg env (with_mode nat dc KWARGS_WITH_NONE) is_async c) = FRaise TypeErrorC None.
-Proof.
-  exists (mksig [(2, Some 5); (1, Some 0)] false), no_env,
-    {| d_params := [mkparam 1 [] true None None]; d_mode := ARGS; d_strict := false; d_ignore_input := false |},
-    false, {| c_args := []; c_kwargs := [(1, 1); (3, 2)] |}.
-  repeat split.
-Qed.
-Print Assumptions C13_return_as_outside_signature_refuted.
-
+(* outside self_guard the call-style statement is false on the current source *)
 (* (b) the name self by keyword: def f(self, a), Parameter a, strict: f(x, a=1) runs, f(self=x, a=1) raises *)
 Theorem C13_self_by_keyword_refuted : exists sg env dc is_async c c',
-  Permutation (named_assignment nat sg c) (named_assignment nat sg c') /\ self_guard nat sg dc c' = false /\
-  gate_guard nat sg dc c = true /\ gate_guard nat sg dc c' = true /\
+  Permutation (named_assignment nat sg c) (named_assignment nat sg c') /\
+  self_guard nat sg dc c = true /\ self_guard nat sg dc c' = false /\
   ~ final_equiv nat (snd (vrun nnone sg env dc is_async c)) (snd (vrun nnone sg env dc is_async c')).
 Proof.
   exists (mksig [(0, None); (1, None)] false), no_env,
@@ -174,8 +160,7 @@ Example C13_call_style_hypotheses_satisfiable :
   Permutation (named_assignment nat ex_sig c1) (named_assignment nat ex_sig c2) /\
   Permutation (named_assignment nat ex_sig c1) (named_assignment nat ex_sig c3) /\
   NoDup (keys (named_assignment nat ex_sig c1)) /\
-  self_guard nat ex_sig dc c2 = true /\ gate_guard nat ex_sig dc c2 = true /\
-  self_guard nat ex_sig dc c3 = true /\ gate_guard nat ex_sig dc c3 = true /\
+  self_guard nat ex_sig dc c2 = true /\ self_guard nat ex_sig dc c3 = true /\
   snd (vrun nnone ex_sig no_env dc false c1) = FBody [(1, 4); (2, 5); (3, 6)] /\
   snd (vrun nnone ex_sig no_env dc false c2) = FBody [(1, 4); (2, 5); (3, 6)] /\
   snd (vrun nnone ex_sig no_env dc false c3) = FBody [(1, 4); (2, 5); (3, 6)].
